@@ -48,10 +48,10 @@ inductive RouteErr where
 deriving Repr, DecidableEq
 
 /-- `beginOutput`: the existing outputs are (id ↦ OutRef); a new id either shares an existing output with the
-    same file and package, conflicts with one that has the same file and another package, or opens a new one -/
+    same file and package, conflicts with one that has the same (non-empty: fix R15) file and another package, or opens a new one -/
 def beginOutput (outs : List (String × OutRef)) (id : String) (o : OutRef) : Except RouteErr (List (String × OutRef)) :=
   if o.pkg = "" then .error (.noPackage id)
-  else match outs.find? (fun p => p.2.fileName = o.fileName ∧ p.2.pkg ≠ o.pkg) with
+  else match outs.find? (fun p => o.fileName ≠ "" ∧ p.2.fileName = o.fileName ∧ p.2.pkg ≠ o.pkg) with
     | some p => .error (.conflictSameFile o.fileName p.2.pkg o.pkg)
     | none => .ok (outs ++ [(id, o)])
 
